@@ -202,16 +202,31 @@ func (wd *world) finish(w *tr.W) {
 	}
 	w.Emit(tr.E{"ev": "end"})
 	wd.grp.Stop()
-	ctx, cancel := context.WithTimeout(context.Background(), 20*time.Second)
-	defer cancel()
 	for i := range wd.x.W {
 		if wd.x.Busy(i + 1) {
 			return // somebody never returned: the trace already says so; leave the goroutines behind
 		}
 	}
-	if err := wd.grp.WaitStop(ctx); err != nil {
-		tr.Fatal("worker group did not stop: %v", err)
+	// every caller is back, no gate is held, the queues are closed: the workers drain and exit.  At
+	// quiescence that has happened or never will (a worker parked for good inside a handler is a fact
+	// about the code under test: logged, for the specification to reject).
+	quick, cancelQ := context.WithTimeout(context.Background(), 100*time.Millisecond)
+	err := wd.grp.WaitStop(quick)
+	cancelQ()
+	if err != nil {
+		if err := wd.x.Settle(); err != nil {
+			tr.Fatal("%v", err)
+		}
+		ctx, cancel := context.WithTimeout(context.Background(), 2*time.Second)
+		err = wd.grp.WaitStop(ctx)
+		cancel()
 	}
+	if err != nil {
+		wd.flush(w)
+		w.Emit(tr.E{"ev": "stuck", "what": "a worker never finished its handler: the group does not stop"})
+		return
+	}
+	wd.flush(w)
 	wd.x.Stop()
 }
 
